@@ -161,3 +161,272 @@ Example C04_example_null_vs_nul_byte :
   hash_input true (CStr None) = hash_input true (CStr (Some [0])) /\
   cell_equal true (CStr None) (CStr (Some [0])) = false.
 Proof. exact null_string_collides_with_nul_byte. Qed.
+
+(* ================================================================================================
+   The frame level: QFrame.GroupBy, Grouper.Aggregate, Grouper.QFrames (Model/Aggregate.v; proofs in
+   Proofs/AggregateProofs.v).  From here on [cell], [ix], ... are those of Model/Frame.v.
+
+   Reading of the statements:
+   * [grouper] = (columns of the frame, grouping column names, groups = lists of positions, error flag).
+   * [key_value g first n x]: x is the cell of column n at position [first];
+     [agg_value ft g grp a x]: x is the group size for "count", otherwise the function that the column's type
+     resolves a.Fn to (built-in by name or user function; [resolve_fn]) applied to exactly the cells of column
+     a.Column at the positions of grp, in grp's order (enum cells are handed over as strings).
+   * Built-ins of int and bool columns and float max / min are concrete (C04_sum / C04_max / C04_min /
+     C04_majority / C04_float_max / C04_float_min); float sum / avg are an oracle table [ft] and user functions
+     are finite tables: a missing entry would be a model fault, which [tables_complete] excludes (it holds
+     outright for "count" and the int/bool built-ins: C04_concrete_tables_complete).
+   * [frame_ok f]: no error, columns of equal physical length with valid enum ranks, index duplicate-free, inside
+     the columns and at most 2^30 long. *)
+From QF Require Import Model.Frame Model.Filter Model.Ops Model.Aggregate Proofs.AggregateProofs.
+
+(* 6. Aggregate: one row per group, in group order, named keys ++ aggregation names; row k holds the key cells of
+   the FIRST row of group k followed by one value per aggregation *)
+Theorem C04_aggregate (ft : float_table) (g : grouper) (aggs : list aggregation) (out : frame) :
+  gerr g = false -> aggregate ft g aggs = Ok out -> ferr out = false ->
+  col_names out = gkeys g ++ map agg_name aggs /\
+  ix out = seq 0 (length (gindices g)) /\
+  forall t, abs out = Ok t ->
+    length (trows t) = length (gindices g) /\
+    forall k grp, nth_error (gindices g) k = Some grp ->
+      exists first keycells aggcells,
+        hd_error grp = Some first /\
+        nth_error (trows t) k = Some (keycells ++ aggcells) /\
+        Forall2 (key_value g first) (gkeys g) keycells /\
+        Forall2 (agg_value ft g grp) aggs aggcells.
+Proof. exact (aggregate_rows ft g aggs out). Qed.
+Print Assumptions C04_aggregate.
+
+(* 7. ... it reports an error exactly when some aggregation names an unknown column, or a result name that is a
+   grouping column or the result name of an earlier aggregation, or (unless "count") a function that the
+   column's type does not accept; an error of the Grouper is passed on *)
+Theorem C04_aggregate_errors (ft : float_table) (g : grouper) (aggs : list aggregation) (out : frame) :
+  gerr g = false -> aggregate ft g aggs = Ok out ->
+  (ferr out = true <->
+   exists i a, nth_error aggs i = Some a /\
+               agg_invalid g (gkeys g ++ map agg_name (firstn i aggs)) a = true).
+Proof. exact (aggregate_err_iff ft g aggs out). Qed.
+Print Assumptions C04_aggregate_errors.
+
+Theorem C04_aggregate_sticky (ft : float_table) (g : grouper) (aggs : list aggregation) :
+  gerr g = true -> aggregate ft g aggs = Ok err_frame.
+Proof. exact (aggregate_sticky ft g aggs). Qed.
+Print Assumptions C04_aggregate_sticky.
+
+(* 8. ... and it never faults on a well-formed Grouper, and every row of its result can be read *)
+Theorem C04_aggregate_total (ft : float_table) (g : grouper) (aggs : list aggregation) :
+  grouper_wf g -> tables_complete ft g aggs ->
+  exists out, aggregate ft g aggs = Ok out /\ (ferr out = false -> exists t, abs out = Ok t).
+Proof. exact (aggregate_total ft g aggs). Qed.
+Print Assumptions C04_aggregate_total.
+
+(* ... whereas a Grouper with an empty group (GroupBy never builds one: C04_partition) makes it panic (ix[0]) *)
+Theorem C04_aggregate_empty_group (ft : float_table) (g : grouper) (aggs : list aggregation) :
+  gerr g = false -> In [] (gindices g) -> aggregate ft g aggs = Panic.
+Proof. exact (aggregate_empty_group ft g aggs). Qed.
+Print Assumptions C04_aggregate_empty_group.
+
+Theorem C04_concrete_tables_complete (ft : float_table) (g : grouper) (aggs : list aggregation) :
+  grouper_wf g ->
+  (forall a, In a aggs -> exists n, agfn a = GName n /\
+     forall c, lookup_col (gframe g) (acol a) = Some c -> col_type c <> TFloat) ->
+  tables_complete ft g aggs.
+Proof. exact (concrete_tables_complete ft g aggs). Qed.
+Print Assumptions C04_concrete_tables_complete.
+
+(* 9. the built-ins of int and bool columns *)
+Theorem C04_sum (ft : float_table) (g : grouper) (grp : list nat) (a : aggregation) (d : list Z) (x : cell) :
+  lookup_col (gframe g) (acol a) = Some (ICol d) -> agfn a = GName name_sum -> agg_value ft g grp a x ->
+  exists zs, omap (idx d) grp = Ok zs /\ x = CInt (wrap64 (fold_right Z.add 0%Z zs)).
+Proof. exact (agg_value_int_sum ft g grp a d x). Qed.
+Print Assumptions C04_sum.
+
+Theorem C04_max (ft : float_table) (g : grouper) (grp : list nat) (a : aggregation) (d : list Z) (x : cell) :
+  lookup_col (gframe g) (acol a) = Some (ICol d) -> agfn a = GName name_max -> agg_value ft g grp a x ->
+  exists zs m, omap (idx d) grp = Ok zs /\ x = CInt m /\ In m zs /\ forall y, In y zs -> (y <= m)%Z.
+Proof. exact (agg_value_int_max ft g grp a d x). Qed.
+Print Assumptions C04_max.
+
+Theorem C04_min (ft : float_table) (g : grouper) (grp : list nat) (a : aggregation) (d : list Z) (x : cell) :
+  lookup_col (gframe g) (acol a) = Some (ICol d) -> agfn a = GName name_min -> agg_value ft g grp a x ->
+  exists zs m, omap (idx d) grp = Ok zs /\ x = CInt m /\ In m zs /\ forall y, In y zs -> (m <= y)%Z.
+Proof. exact (agg_value_int_min ft g grp a d x). Qed.
+Print Assumptions C04_min.
+
+Theorem C04_majority (ft : float_table) (g : grouper) (grp : list nat) (a : aggregation) (d : list bool) (x : cell) :
+  lookup_col (gframe g) (acol a) = Some (BCol d) -> agfn a = GName name_majority -> agg_value ft g grp a x ->
+  exists zs b, omap (idx d) grp = Ok zs /\ x = CBool b /\
+    (b = true <-> (count_occ Bool.bool_dec zs false < count_occ Bool.bool_dec zs true)%nat).
+Proof. exact (agg_value_bool_majority ft g grp a d x). Qed.
+Print Assumptions C04_majority.
+
+(* ... and float max / min (folds of math.Max / math.Min on bit patterns); the closed form is claimed for groups
+   without NaN only: +Inf / -Inf absorb a NaN in math.Max / math.Min, so the result then depends on the order *)
+Theorem C04_float_max (ft : float_table) (g : grouper) (grp : list nat) (a : aggregation) (d : list N) (x : cell) :
+  lookup_col (gframe g) (acol a) = Some (FCol d) -> agfn a = GName name_max -> agg_value ft g grp a x ->
+  exists zs m, omap (idx d) grp = Ok zs /\ fl_max zs = Ok m /\ x = CFloat m /\
+    ((forall y, In y zs -> f_isnan y = false) -> In m zs /\ forall y, In y zs -> f_le y m = true).
+Proof. exact (agg_value_float_max ft g grp a d x). Qed.
+Print Assumptions C04_float_max.
+
+Theorem C04_float_min (ft : float_table) (g : grouper) (grp : list nat) (a : aggregation) (d : list N) (x : cell) :
+  lookup_col (gframe g) (acol a) = Some (FCol d) -> agfn a = GName name_min -> agg_value ft g grp a x ->
+  exists zs m, omap (idx d) grp = Ok zs /\ fl_min zs = Ok m /\ x = CFloat m /\
+    ((forall y, In y zs -> f_isnan y = false) -> In m zs /\ forall y, In y zs -> f_le m y = true).
+Proof. exact (agg_value_float_min ft g grp a d x). Qed.
+Print Assumptions C04_float_min.
+
+(* 10. QFrames: exactly the groups' rows: the input frame with the group as its index, in group order *)
+Theorem C04_qframes (grp : list coldata -> list nat -> outcome (list (list nat))) (f : frame)
+        (columns : list bytes) (g : grouper) :
+  group_by_with grp f columns = Ok g -> gerr g = false ->
+  qframes g = Ok (map (with_ix f) (gindices g)).
+Proof. exact (group_by_qframes grp f columns g). Qed.
+Print Assumptions C04_qframes.
+
+Theorem C04_qframes_err (g : grouper) : gerr g = true -> qframes g = Fail.
+Proof. exact (qframes_err g). Qed.
+Print Assumptions C04_qframes_err.
+
+(* 11. GroupBy, frame level: error / no rows / no columns, whatever the hash table does *)
+Theorem C04_groupby_error (grp : list coldata -> list nat -> outcome (list (list nat))) (f : frame)
+        (columns : list bytes) :
+  ferr f = true \/ forallb (contains f) columns = false -> group_by_with grp f columns = Ok err_grouper.
+Proof. exact (group_by_err grp f columns). Qed.
+Print Assumptions C04_groupby_error.
+
+Theorem C04_groupby_no_rows (grp : list coldata -> list nat -> outcome (list (list nat))) (f : frame)
+        (columns : list bytes) :
+  ferr f = false -> forallb (contains f) columns = true -> ix f = [] ->
+  group_by_with grp f columns = Ok (mkGrouper (cols f) columns [] false).
+Proof. exact (group_by_no_rows grp f columns). Qed.
+Print Assumptions C04_groupby_no_rows.
+
+Theorem C04_groupby_no_columns (grp : list coldata -> list nat -> outcome (list (list nat))) (f : frame) :
+  ferr f = false -> ix f <> [] -> group_by_with grp f [] = Ok (mkGrouper (cols f) [] [ix f] false).
+Proof. exact (group_by_no_columns grp f). Qed.
+Print Assumptions C04_groupby_no_columns.
+
+(* 12. GroupBy on a frame with the hash table of Model/Grouper.v: a partition of the index by equality of the
+   key cells, for every memhash and every random source (2. + 4. at frame level) *)
+Theorem C04_groupby_partition (memhash : bytes -> N -> N) (rnd : nat -> nat -> N) (nulleq : bool)
+        (f : frame) (columns : list bytes) :
+  frame_ok f -> forallb (contains f) columns = true ->
+  (forall i, In i (ix f) -> Forall cell_wf (key_cells (key_columns f columns) i)) ->
+  exists g, group_by memhash rnd nulleq f columns = Ok g /\
+            gerr g = false /\ gcols g = cols f /\ gkeys g = columns /\
+            partition_ok (key_eqb nulleq (key_columns f columns)) (ix f) (gindices g).
+Proof. exact (group_by_partition memhash rnd nulleq f columns). Qed.
+Print Assumptions C04_groupby_partition.
+
+(* 13. the statement of the property on the model: GroupBy(columns) followed by Aggregate(aggs) / QFrames() *)
+Definition C04_full_statement : Prop :=
+  forall (memhash : bytes -> N -> N) (rnd : nat -> nat -> N) (nulleq : bool) (ft : float_table)
+         (f : frame) (columns : list bytes) (aggs : list aggregation),
+  frame_ok f -> forallb (contains f) columns = true ->
+  (forall i, In i (ix f) -> Forall cell_wf (key_cells (key_columns f columns) i)) ->
+  exists g, group_by memhash rnd nulleq f columns = Ok g /\
+    gerr g = false /\ gcols g = cols f /\ gkeys g = columns /\
+    partition_ok (key_eqb nulleq (key_columns f columns)) (ix f) (gindices g) /\
+    qframes g = Ok (map (with_ix f) (gindices g)) /\
+    (tables_complete ft g aggs ->
+     exists out, aggregate ft g aggs = Ok out /\
+       (ferr out = true <->
+        exists i a, nth_error aggs i = Some a /\
+                    agg_invalid g (columns ++ map agg_name (firstn i aggs)) a = true) /\
+       (ferr out = false ->
+        exists t, abs out = Ok t /\ tnames t = columns ++ map agg_name aggs /\
+          length (trows t) = length (gindices g) /\
+          forall k grp, nth_error (gindices g) k = Some grp ->
+            exists first keycells aggcells,
+              hd_error grp = Some first /\
+              nth_error (trows t) k = Some (keycells ++ aggcells) /\
+              Forall2 (key_value g first) columns keycells /\
+              Forall2 (agg_value ft g grp) aggs aggcells)).
+
+Theorem C04_groupby_aggregate : C04_full_statement.
+Proof. exact groupby_aggregate. Qed.
+Print Assumptions C04_groupby_aggregate.
+
+(* ---------------------------------------------------------------- the premises are satisfiable *)
+
+(* five rows (index 4 0 1 2 3) of an int key "k", an int "v" (with MaxInt64: the sum wraps), a bool "b" and an
+   enum "s" with a null *)
+Definition ex_k : bytes := bs 1 0x6b.
+Definition ex_v : bytes := bs 1 0x76.
+Definition ex_b : bytes := bs 1 0x62.
+Definition ex_s : bytes := bs 1 0x73.
+Definition ex_f : frame := mkFrame
+  [ (ex_k, ICol [1; 2; 1; 2; 1]%Z); (ex_v, ICol [10; 20; 30; 40; 9223372036854775807]%Z);
+    (ex_b, BCol [true; false; true; true; false]);
+    (ex_s, ECol [0; 1; 0; 255; 1] [bs 1 0x78; bs 1 0x79] true) ] [4; 0; 1; 2; 3]%nat false.
+Definition ex_memhash (b : bytes) (seed : N) : N :=
+  fold_left (fun acc x => N.land (acc * 33 + x + 1) 0xFFFFFFFFFFFF) b (seed + 5381).
+Definition ex_rnd (_ _ : nat) : N := 0.
+(* a user function on the enum column (strings joined), as the table of its values on the two groups *)
+Definition ex_join : list (list cell * cell) :=
+  [ ([CStr (Some (bs 1 0x79)); CStr (Some (bs 1 0x78)); CStr (Some (bs 1 0x78))], CStr (Some (bs 3 0x797878)));
+    ([CStr (Some (bs 1 0x79)); CStr None], CStr (Some (bs 1 0x79))) ].
+Definition ex_aggs : list aggregation :=
+  [ mkAgg (GName name_sum) ex_v []; mkAgg (GName name_count) ex_v (bs 1 0x6e);
+    mkAgg (GName name_majority) ex_b []; mkAgg (GUser TString ex_join) ex_s [] ].
+
+Example C04_example_frame_premises :
+  frame_ok ex_f /\ forallb (contains ex_f) [ex_k] = true /\
+  (forall i, In i (ix ex_f) -> Forall cell_wf (key_cells (key_columns ex_f [ex_k]) i)).
+Proof.
+  split; [|split].
+  - split; [reflexivity|]. split; [reflexivity|]. split; [|vm_compute; discriminate].
+    repeat constructor; simpl; intuition discriminate.
+  - reflexivity.
+  - intros i Hi. simpl in Hi.
+    repeat (destruct Hi as [<-|Hi];
+            [match goal with |- Forall cell_wf ?t => let v := eval vm_compute in t in change t with v end;
+             repeat constructor|]).
+    contradiction.
+Qed.
+
+Example C04_example_groupby :
+  group_by ex_memhash ex_rnd false ex_f [ex_k] = Ok (mkGrouper (cols ex_f) [ex_k] [[4; 0; 2]; [1; 3]]%nat false).
+Proof. vm_compute. reflexivity. Qed.
+
+(* sum wraps around, count, majority, the user function sees the group's strings in group order (row 4 first) *)
+Example C04_example_aggregate :
+  (do g <- group_by ex_memhash ex_rnd false ex_f [ex_k]; do o <- aggregate [] g ex_aggs; abs o) =
+  Ok (mkTable [ex_k; ex_v; bs 1 0x6e; ex_b; ex_s] [TInt; TInt; TInt; TBool; TString]
+        [ [CInt 1; CInt (-9223372036854775769); CInt 3; CBool true; CStr (Some (bs 3 0x797878))];
+          [CInt 2; CInt 60; CInt 2; CBool false; CStr (Some (bs 1 0x79))] ]).
+Proof. vm_compute. reflexivity. Qed.
+
+Definition ex_g : grouper := mkGrouper (cols ex_f) [ex_k] [[4; 0; 2]; [1; 3]]%nat false.
+
+Example C04_example_grouper_wf : grouper_wf ex_g.
+Proof.
+  split; [reflexivity|]. split; [reflexivity|]. split; [reflexivity|].
+  intros grp Hg. simpl in Hg. destruct Hg as [<-|[<-|[]]]; (split; [discriminate|]);
+    intros p Hp; simpl in Hp; vm_compute;
+    repeat (destruct Hp as [<-|Hp]; [lia|]); contradiction.
+Qed.
+
+Example C04_example_tables_complete : tables_complete [] ex_g ex_aggs.
+Proof.
+  intros a c fnc grp vals Ha L IC R Hg AV.
+  simpl in Ha. destruct Ha as [<-|[<-|[<-|[<-|[]]]]]; try (vm_compute in IC; discriminate);
+    vm_compute in L; inversion L; subst c;
+    simpl in Hg; destruct Hg as [<-|[<-|[]]]; vm_compute in AV; inversion AV; subst vals;
+    cbn in R; inversion R; subst fnc; (eexists; split; [vm_compute; reflexivity|reflexivity]).
+Qed.
+
+(* the three kinds of rejected aggregation, and the no-column GroupBy *)
+Example C04_example_errors :
+  (do g <- group_by ex_memhash ex_rnd false ex_f [ex_k]; aggregate [] g [mkAgg (GName name_sum) (bs 1 0x7a) []])
+    = Ok err_frame /\                                               (* unknown column "z" *)
+  (do g <- group_by ex_memhash ex_rnd false ex_f [ex_k]; aggregate [] g [mkAgg (GName name_sum) ex_v ex_k])
+    = Ok err_frame /\                                               (* result named like the grouping column *)
+  (do g <- group_by ex_memhash ex_rnd false ex_f [ex_k]; aggregate [] g [mkAgg (GName name_sum) ex_s []])
+    = Ok err_frame /\                                               (* no built-in "sum" for enum columns *)
+  (do g <- group_by ex_memhash ex_rnd false ex_f [ex_k];
+   aggregate [] g [mkAgg (GUser TFloat []) ex_v []]) = Ok err_frame /\   (* func([]float64) float64 on an int column *)
+  (do g <- group_by ex_memhash ex_rnd false ex_f []; aggregate [] g [mkAgg (GName name_min) ex_v []])
+    = Ok (mkFrame [(ex_v, ICol [10%Z])] [0%nat] false).
+Proof. vm_compute. repeat split. Qed.
